@@ -284,6 +284,18 @@ func (r *Report) finish() int {
 				ev["known_finding"] = true
 				continue
 			}
+			allErr := len(sr.All) > 0
+			for _, a := range sr.All {
+				if a != "error" {
+					allErr = false
+				}
+			}
+			if allErr {
+				// no solver could even read the script: a defect of the generator, not of the code
+				lines = append(lines, fmt.Sprintf("BROKEN: every solver rejected the script of %s: %s", sr.Name, truncate(sr.Detail, 400)))
+				exit = 2
+				continue
+			}
 			violations++
 			os.MkdirAll(replayDir, 0755)
 			rp := filepath.Join(replayDir, sanitize(sr.Name)+".json")
